@@ -85,6 +85,7 @@ def gen(seed, tier):
     # (b) junk: non-hex, non-UTF-8, very long lines, NULs, then the sentinel
     junk = [b"\xff\xfe\xfd", b"\x00" * 100, b"8D" * 40000, b"G" * 70000, b"\r\r\r", "✈".encode() * 30,
             b"8D40621D58C382", b"02E197B00179C3" * 2, b"@" + b"0" * 40 + b";", b"*;", b" " * 5000]
+    junk += [g.text_line(off, ch, tail) for off in range(0, 141) for ch in ("é", "€", "😀") for tail in (0, 70)]
     for o in optsets[:4]:
         body = junk + [g.junk_line() for _ in range(20)] + [sentinel()]
         cases.append(H("C01-j%d" % n, o, [seg(0, body)]))
